@@ -487,7 +487,20 @@ func Worker(t *testing.T, prop, tier string, baseSeed uint64, worker, workers in
 			res.Stats.Seeds = append(res.Stats.Seeds, seed)
 		}
 		t1 := time.Now()
+		// real-time guard: a goroutine of the daemon blocked on a lock is not
+		// "durably blocked" for synctest, so the bubble never becomes quiescent and
+		// neither the scheduler nor the fake-clock watchdog can notice a dead-lock
+		hangLimit := 4 * budget
+		if hangLimit < 5*time.Minute {
+			hangLimit = 5 * time.Minute
+		}
+		if v, _ := strconv.Atoi(os.Getenv("PEGSIM_HANG_S")); v > 0 { // development aid
+			hangLimit = time.Duration(v) * time.Second
+		}
+		doneCh := make(chan struct{})
+		go hangGuard(doneCh, hangLimit, prop, sc, res, replayDir)
 		v, err := runOne(c, env, sc)
+		close(doneCh)
 		if d := time.Since(t1); d > 20*time.Second {
 			res.Slowest = append(res.Slowest, fmt.Sprintf("seed %d: %.0fs", seed, d.Seconds()))
 		}
@@ -545,6 +558,80 @@ func Worker(t *testing.T, prop, tier string, baseSeed uint64, worker, workers in
 	return res
 }
 
+// hangGuard ends the worker process when one scenario has been running for
+// longer than limit of real time. If goroutines of the daemon are blocked on a
+// lock (sync.Mutex / RWMutex / WaitGroup / Cond inside pegnetd code) that is
+// reported as a violation -- the daemon dead-locked --, otherwise as
+// infrastructure trouble. The result file is written here because the normal
+// path will never be reached.
+func hangGuard(done <-chan struct{}, limit time.Duration, prop string, sc *Scenario, res *WorkerResult, replayDir string) {
+	hangWatch(done, limit, prop, func(v *Violation, infra string) {
+		if v != nil {
+			sc.Violation = v
+			os.MkdirAll(replayDir, 0o777)
+			path := filepath.Join(replayDir, fmt.Sprintf("%s-%d.hang.json", prop, sc.Seed))
+			b, _ := json.MarshalIndent(sc, "", " ")
+			os.WriteFile(path, b, 0o666)
+			res.Violations = append(res.Violations, v)
+			res.Replays = append(res.Replays, path)
+		} else {
+			res.Infra = append(res.Infra, fmt.Sprintf("seed %d: %s", sc.Seed, infra))
+		}
+		if out := os.Getenv("PEGSIM_OUT"); out != "" {
+			b, _ := json.Marshal(res)
+			os.WriteFile(out, b, 0o666)
+		}
+		os.Exit(0)
+	})
+}
+
+// hangWatch waits for done or for limit of real time; in the second case it
+// classifies the hang from the goroutine dump and calls onHang (which is
+// expected to write the result and end the process).
+func hangWatch(done <-chan struct{}, limit time.Duration, prop string, onHang func(v *Violation, infra string)) {
+	t := time.NewTimer(limit)
+	defer t.Stop()
+	select {
+	case <-done:
+		return
+	case <-t.C:
+	}
+	buf := make([]byte, 4<<20)
+	buf = buf[:runtime.Stack(buf, true)]
+	var locked []string
+	for _, g := range strings.Split(string(buf), "\n\n") {
+		if !strings.Contains(g, "github.com/pegnet/pegnetd/") {
+			continue
+		}
+		for _, prim := range []string{"sync.(*RWMutex).", "sync.(*Mutex).Lock", "sync.(*WaitGroup).Wait", "sync.(*Cond).Wait"} {
+			if strings.Contains(g, prim) {
+				site := "?"
+				for _, l := range strings.Split(g, "\n") {
+					if strings.HasPrefix(l, "github.com/pegnet/pegnetd/") {
+						site = strings.TrimPrefix(l[:strings.LastIndex(l, "(")], "github.com/pegnet/pegnetd/")
+						break
+					}
+				}
+				locked = append(locked, prim+" in "+site)
+				break
+			}
+		}
+	}
+	if len(locked) > 0 {
+		sort.Strings(locked)
+		uniq := locked[:0]
+		for i, x := range locked {
+			if i == 0 || x != locked[i-1] {
+				uniq = append(uniq, x)
+			}
+		}
+		onHang(&Violation{Prop: prop, Oracle: "no-deadlock", Signature: "daemon goroutines blocked on a lock for good: " + strings.Join(uniq, "; "),
+			Detail: fmt.Sprintf("scenario running for more than %v of real time with daemon goroutines blocked on a lock:\n%s", limit, trunc(string(buf), 6000))}, "")
+		return
+	}
+	onHang(nil, fmt.Sprintf("scenario still running after %v of real time\n%s", limit, trunc(string(buf), 4000)))
+}
+
 // Replay executes a replay file and reports whether its violation reproduces.
 func Replay(t *testing.T, path string) (*Violation, *Violation, error) {
 	b, err := os.ReadFile(path)
@@ -565,7 +652,21 @@ func Replay(t *testing.T, path string) (*Violation, *Violation, error) {
 	}
 	defer os.RemoveAll(work)
 	env := &Env{T: t, Stats: NewStats(), Work: work}
+	doneCh := make(chan struct{})
+	go hangWatch(doneCh, 5*time.Minute, sc.Prop, func(v *Violation, infra string) {
+		res := map[string]interface{}{"replay": path, "expected": sc.Violation, "got": v}
+		if infra != "" {
+			res["error"] = infra
+		}
+		b, _ := json.MarshalIndent(res, "", " ")
+		if out := os.Getenv("PEGSIM_OUT"); out != "" {
+			os.WriteFile(out, b, 0o666)
+		}
+		os.RemoveAll(work)
+		os.Exit(0)
+	})
 	v, err := runOne(c, env, &sc)
+	close(doneCh)
 	return sc.Violation, v, err
 }
 
